@@ -13,7 +13,7 @@ T=$(SVGPATHTOOLS_VERIF= /venv/bin/python -m pytest -q -p no:cacheprovider --time
 echo "TESTS: $T"
 # the demo was written against a scratch worktree: point it at /repo
 sed "s#sys.path.insert(0, *['\"][^'\"]*['\"])#sys.path.insert(0, '/repo')#" "$DEMO" > /tmp/_seeded_demo.py
-( cd /tmp && timeout 600 /venv/bin/python /tmp/_seeded_demo.py >/dev/null 2>&1 ); echo "DEMO with change: exit=$?"
+( cd /tmp && PYTHONPATH=$(dirname "$DEMO") timeout 600 /venv/bin/python /tmp/_seeded_demo.py >/dev/null 2>&1 ); echo "DEMO with change: exit=$?"
 cd /verif
 for c in $CHECKS; do
   out=$(timeout 1500 ./check $c --tier quick 2>&1); r=$?
@@ -21,5 +21,5 @@ for c in $CHECKS; do
   rm -rf /verif/replays/$c
 done
 cd /repo && git checkout -- . && trap - EXIT
-( cd /tmp && timeout 600 /venv/bin/python /tmp/_seeded_demo.py >/dev/null 2>&1 ); echo "DEMO without change: exit=$?"
+( cd /tmp && PYTHONPATH=$(dirname "$DEMO") timeout 600 /venv/bin/python /tmp/_seeded_demo.py >/dev/null 2>&1 ); echo "DEMO without change: exit=$?"
 rm -f /tmp/_seeded_demo.py
